@@ -6,6 +6,8 @@ CONSTANTS
   RKeys = {"k1"}
   RPass = {"p1"}
   MaxHist = 0
+  MaxConns = 2
+  MaxCItems = 0
   MaxLines = 0
 INVARIANT WTypeOK Inv_NoCrash Inv_Count Inv_End Inv_Stream
 PROPERTIES P_C12
